@@ -1,23 +1,190 @@
 package main
 
 import (
+	"encoding/json"
+	"flag"
 	"fmt"
 	"os"
-
-	"golang.org/x/tools/go/packages"
-	"golang.org/x/tools/go/ssa"
-	"golang.org/x/tools/go/ssa/ssautil"
+	"sort"
+	"strings"
+	"time"
 )
 
+type FuncReport struct {
+	Func      string   `json:"func"`
+	Errors    []string `json:"errors,omitempty"`
+	Inlined   []string `json:"inlined,omitempty"`
+	Assumed   []string `json:"assumed,omitempty"`
+	NObl      int      `json:"obligations"`
+	Props     []string `json:"props,omitempty"`
+	Trusted   bool     `json:"trusted,omitempty"`
+	GenSecs   float64  `json:"gen_seconds"`
+}
+
+type Report struct {
+	Dir       string        `json:"dir"`
+	Funcs     []*FuncReport `json:"funcs"`
+	Results   []*Result     `json:"results"`
+	Errors    []string      `json:"errors,omitempty"`
+	WallS     float64       `json:"wall_s"`
+	Unused    []string      `json:"unused_contracts,omitempty"`
+}
+
+type multiFlag []string
+
+func (m *multiFlag) String() string     { return strings.Join(*m, ",") }
+func (m *multiFlag) Set(s string) error { *m = append(*m, s); return nil }
+
 func main() {
-	cfg := &packages.Config{Mode: packages.LoadSyntax, Dir: "/repo", BuildFlags: []string{"-tags=verif"}}
-	pkgs, err := packages.Load(cfg, ".")
+	var contracts multiFlag
+	dir := flag.String("dir", "/repo", "package directory")
+	pattern := flag.String("pkg", ".", "package pattern")
+	tags := flag.String("tags", "verif", "build tags")
+	flag.Var(&contracts, "contracts", "contract file (repeatable)")
+	only := flag.String("funcs", "", "comma-separated function keys (default: all with contracts)")
+	props := flag.String("props", "", "only functions carrying one of these properties")
+	out := flag.String("out", "", "JSON report file")
+	work := flag.String("work", "", "scratch directory for queries")
+	workers := flag.Int("j", 16, "parallel solver processes")
+	timeout := flag.Int("timeout", 10, "solver timeout (s)")
+	seed := flag.Int("seed", 0, "solver seed")
+	keep := flag.Bool("keep", false, "keep all query files")
+	dump := flag.String("dump", "", "print SSA of this function and exit")
+	flag.Parse()
+
+	t0 := time.Now()
+	eng, err := loadEngine(*dir, strings.Split(*pattern, ","), *tags, nil)
 	if err != nil {
-		panic(err)
+		fmt.Fprintln(os.Stderr, "load:", err)
+		os.Exit(2)
 	}
-	prog, spkgs := ssautil.Packages(pkgs, ssa.GlobalDebug)
-	prog.Build()
-	fn := spkgs[0].Func("flagMapFromArray")
-	fn.WriteTo(os.Stdout)
-	fmt.Println(len(spkgs))
+	if *dump != "" {
+		fn := eng.funcs[*dump]
+		if fn == nil {
+			fmt.Fprintln(os.Stderr, "no such function")
+			os.Exit(2)
+		}
+		fn.WriteTo(os.Stdout)
+		for _, af := range fn.AnonFuncs {
+			af.WriteTo(os.Stdout)
+		}
+		return
+	}
+	for _, c := range contracts {
+		if err := eng.contracts.ParseFile(c); err != nil {
+			fmt.Fprintln(os.Stderr, "contracts:", err)
+			os.Exit(2)
+		}
+	}
+	rep := &Report{Dir: *dir}
+	want := map[string]bool{}
+	for _, f := range strings.Split(*only, ",") {
+		if f != "" {
+			want[f] = true
+		}
+	}
+	wantProps := map[string]bool{}
+	for _, p := range strings.Split(*props, ",") {
+		if p != "" {
+			wantProps[p] = true
+		}
+	}
+	var vcs []*VC
+	for _, key := range eng.contracts.Order {
+		c := eng.contracts.Funcs[key]
+		if c.Extern {
+			continue
+		}
+		if len(want) > 0 && !want[key] {
+			continue
+		}
+		if len(wantProps) > 0 {
+			hit := false
+			for p := range c.Props {
+				if wantProps[p] {
+					hit = true
+				}
+			}
+			if !hit {
+				continue
+			}
+		}
+		fr := &FuncReport{Func: key, Trusted: c.Trusted}
+		for p := range c.Props {
+			fr.Props = append(fr.Props, p)
+		}
+		sort.Strings(fr.Props)
+		rep.Funcs = append(rep.Funcs, fr)
+		if c.Trusted {
+			continue
+		}
+		g0 := time.Now()
+		vc, err := eng.verifyFunc(key)
+		fr.GenSecs = time.Since(g0).Seconds()
+		if err != nil {
+			fr.Errors = append(fr.Errors, err.Error())
+			continue
+		}
+		fr.Errors = vc.errs
+		for k := range vc.inlined {
+			fr.Inlined = append(fr.Inlined, k)
+		}
+		for k := range vc.assumed {
+			fr.Assumed = append(fr.Assumed, k)
+		}
+		sort.Strings(fr.Inlined)
+		sort.Strings(fr.Assumed)
+		fr.NObl = len(vc.obls)
+		vcs = append(vcs, vc)
+	}
+	wdir := *work
+	if wdir == "" {
+		wdir, err = os.MkdirTemp("", "govc")
+		if err != nil {
+			fmt.Fprintln(os.Stderr, err)
+			os.Exit(2)
+		}
+		if !*keep {
+			defer os.RemoveAll(wdir)
+		}
+	} else {
+		_ = os.MkdirAll(wdir, 0o755)
+	}
+	rep.Results = solveAll(vcs, wdir, *workers, *timeout, *seed, *keep)
+	for k, c := range eng.contracts.Funcs {
+		if !c.Used && !c.Extern {
+			rep.Unused = append(rep.Unused, k)
+		}
+	}
+	sort.Strings(rep.Unused)
+	rep.WallS = time.Since(t0).Seconds()
+	enc, _ := json.MarshalIndent(rep, "", " ")
+	if *out != "" {
+		_ = os.WriteFile(*out, enc, 0o644)
+	}
+	nd, nf, nu := 0, 0, 0
+	for _, r := range rep.Results {
+		switch r.Status {
+		case "discharged":
+			nd++
+		case "failed":
+			nf++
+			fmt.Printf("FAILED  %s #%d [%s] %s (%s)\n", r.Func, r.ID, r.Kind, r.Name, r.Pos)
+		default:
+			nu++
+			fmt.Printf("UNKNOWN %s #%d [%s] %s (%s) %s\n", r.Func, r.ID, r.Kind, r.Name, r.Pos, r.Answer)
+		}
+	}
+	for _, f := range rep.Funcs {
+		for _, e := range f.Errors {
+			fmt.Printf("ERROR   %s: %s\n", f.Func, e)
+		}
+	}
+	fmt.Printf("functions=%d obligations=%d discharged=%d failed=%d unknown=%d wall=%.1fs\n", len(rep.Funcs), len(rep.Results), nd, nf, nu, rep.WallS)
+	if wdir != "" && (*keep || nf+nu > 0) && *work != "" {
+		fmt.Println("queries in", wdir)
+	}
+	if nf+nu > 0 {
+		os.Exit(1)
+	}
 }
